@@ -44,18 +44,19 @@ def verify(d, tier='quick', all_checks=False, keep=False):
         rc, out = sh(['git', '-C', '/repo', 'worktree', 'add', '-q', '--detach', wt, 'HEAD'])
         assert rc == 0, out
         env = dict(os.environ, PYTHONPATH=wt, PYTHONDONTWRITEBYTECODE='1')
-        demo = os.path.join(d, meta.get('demo', 'demo.py'))
-        rc, out = sh([PY, demo], cwd=wt, env=env)
-        res['demo_clean_rc'] = rc
+        demo = meta.get('demo', 'demo.py')
+        demo = os.path.join(d, demo) if demo else None
+        res['demo_clean_rc'] = sh([PY, demo], cwd=wt, env=env)[0] if demo else None
         rc, out = sh(['git', '-C', wt, 'apply', os.path.join(d, 'patch.diff')])
+        if rc != 0:
+            rc, out = sh(['git', '-C', wt, 'apply', '-3', os.path.join(d, 'patch.diff')])
         assert rc == 0, 'patch does not apply: ' + out
         rc, out = sh([PY, '-m', 'pytest', '-q', '-p', 'no:cacheprovider', '--timeout=900'],
                      cwd=wt, env=env)
         res['suite'] = out.strip().splitlines()[-1][-60:] if out.strip() else ''
         res['suite_rc'] = rc
-        rc, out = sh([PY, demo], cwd=wt, env=env)
-        res['demo_mutant_rc'] = rc
-        checks = [pid]
+        res['demo_mutant_rc'] = sh([PY, demo], cwd=wt, env=env)[0] if demo else None
+        checks = [pid] + [p for p in meta.get('also', []) if p != pid]
         if all_checks:
             checks = ['C%02d' % i for i in range(1, 21)]
         res['checks'] = {}
@@ -96,11 +97,17 @@ def main():
             continue
         if a.only and a.only not in n:
             continue
-        r = verify(d, a.tier, a.all_checks)
+        try:
+            r = verify(d, a.tier, a.all_checks)
+        except AssertionError as e:
+            print('%-28s ERROR %s' % (n, str(e)[:200]), flush=True)
+            continue
         own = r['checks'][r['property']]
         print('%-28s suite_rc=%s demo(clean/mutant)=%s/%s  %s: %s' % (
             n, r['suite_rc'], r['demo_clean_rc'], r['demo_mutant_rc'], r['property'],
-            'DETECTED %s' % own['keys'][:1] if own['violations'] else 'MISSED'), flush=True)
+            'DETECTED %s' % own['keys'][:1] if own['violations'] else 'MISSED') +
+            ''.join('  %s:%s' % (c, 'D' if v['violations'] else 'miss')
+                    for c, v in r['checks'].items() if c != r['property']), flush=True)
         rows.append(r)
     with open(os.path.join(root, 'last_results.json'), 'w') as f:
         json.dump(rows, f, indent=1)
